@@ -351,7 +351,7 @@ def run_shard(ctx):
 
     @given(cases(max_nodes))
     def test(case):
-        check_case(ctx, case)
+        runner.guarded(ctx, check_case, case)
 
     runner.drive(ctx, test, ctx.n(600, 10000))
     real_signal_runs(ctx, 1 if ctx.tier == "quick" else 6)
